@@ -7,14 +7,15 @@ BUDGET_S = {'quick': 150, 'thorough': 1500}
 BOUNDS = {
     'quick': 'universe U7 (+ c for the cache directory): every universe path may initially be a foreign file or directory '
              '(also at target and former-output positions); foreign files planted by mutations inside created '
-             'directories (o/z, o/d/z) and next to the cache (c/z); histories B.M.B, B.M.C, B.M.F, B.B (file<->dir swap); '
+             'directories (o/z, o/d/z) and next to the cache (c/z); histories B.M.B, B.M.C, B.M.F, B.B (file<->dir swap); a foreign file appearing '
+             'while the second build runs (at a symbolic point between two calls of the user program, families A8c and A4 on B.B); '
              'snapshot (inode, content id, mtime) of everything outside the managed set before/after every API call plus an '
              'allow-list over every mutating system call the library makes',
     'thorough': 'wider holes, skeleton set B, histories of 4-5 steps',
 }
 ASSUMPTIONS = ['managed set = cache file + paths passed to build_file in this build + outputs recorded by the previous commit '
                '(computed from the program and the reference model, never from the library bookkeeping)']
-WITNESSES = {'quick': ['build-raised', 'clean-with-cache'], 'thorough': ['clean-with-cache']}
+WITNESSES = {'quick': ['build-raised', 'clean-with-cache', 'planted-during-build'], 'thorough': ['clean-with-cache']}
 
 
 def families(tier):
@@ -32,6 +33,11 @@ def families(tier):
     ]
     q.append({'name': 'backups', 'params': {}, 'weight': 1})
     q.append({'name': 'A8b', 'params': {'hist': 'BMB', 'kinds': ['is_dir'], 'mut_paths': ['o/d/z', 'o/d/e/z', 'o/d/e']}, 'weight': 1})
+    # a foreign file appears while the build is running (between two calls of the user program)
+    q.append({'name': 'A8c', 'params': {'hist': 'BB', 'kinds': ['is_dir', 'list_dir'], 'midplant': True,
+                                        'plant_paths': ['o/d/z', 'o/d/e/z', 'o/z']}, 'weight': 1})
+    q.append({'name': 'A4', 'params': {'hist': 'BB', 'kinds': ['is_dir'], 'roles': ['o'], 'targets': ['o/d/g'], 'modes': ['ok', 'raise_after'],
+                                       'midplant': True, 'plant_paths': ['o/d/z', 'o/z', 'o/d/g/z']}, 'weight': 1})
     q.append({'name': 'S1', 'params': {'hist': 'F'}, 'weight': 1})
     q.append({'name': 'S1', 'params': {'hist': 'BMF', 'mut_paths': ['o/d', 'o/d/g', 'o/z']}, 'weight': 2})
     q.append({'name': 'N3', 'params': {'hist': 'BBC', 'universe': UN3, 'kinds': ['is_dir'], 'roles': ['o']}, 'weight': 3})
